@@ -31,7 +31,11 @@ where
     let mut mem = Memory::<D> { grid: [1.0, 0.5, 0.25, 0.125][rng.usize(4)], extent: [4.0, 8.0, 8.0, 16.0][rng.usize(4)], ..Default::default() };
     if rng.chance(2, 5) {
         let dt = Dt::<K, D>::with_empty_kernel_and_topology_guarantee(K::default(), gu.to_lib());
-        return Some((dt, mem, json!({"start": "empty", "guarantee": format!("{:?}", gu)})));
+        let scripted = rng.chance(1, 3);
+        if scripted {
+            mem.script = hist::degenerate_bootstrap_script(rng, &mem);
+        }
+        return Some((dt, mem, json!({"start": if scripted { "empty+degenerate-bootstrap-prefix" } else { "empty" }, "guarantee": format!("{:?}", gu)})));
     }
     let fam = *rng.pick(&[Family::Grid, Family::Dyadic, Family::Uniform, Family::TinyGrid, Family::Hull, Family::Sphere, Family::Stacked]);
     let n = g::size_for::<D>(rng, thorough).min(D + 1 + 3 * D);
